@@ -1,2 +1,231 @@
+// Native replay for C08 (split / join / strip / replace / skip helpers): driver <mode> [name=0xHEX ...]
+// The counterexamples of the contract proofs live in is_fresh objects (string contents are not visible in the trace; only
+// ghost indices, sizes, delimiters and max_splits are).  The driver therefore uses the scalar inputs it is given
+// (in_delim, in_max_splits, in_offset, in_allow) and SWEEPS the string contents: all strings up to length SWEEP_LEN over a
+// small adversarial alphabet (mode dependent; always contains 'a', the delimiter / a blank, and the NUL byte), comparing
+// the real function with a straightforward reference definition.  exit 1 = the real function differs from the reference on
+// some input (first difference printed); 0 = no difference; 2 = usage.
 #include "replay/common/args.hh"
-int main(int argc, char** argv) { Args A(argc, argv); return 0; }
+#include "Strings.hh"
+#include <functional>
+#include <stdexcept>
+using namespace phosg;
+using namespace std;
+
+static string show(const string& s) {
+  string r = "\"";
+  for (unsigned char c : s) { char b[8]; if (c >= 0x20 && c < 0x7F && c != '"' && c != '\\') r += (char)c; else { snprintf(b, sizeof b, "\\x%02X", c); r += b; } }
+  return r + "\"";
+}
+static string show(const vector<string>& v) { string r = "["; for (size_t i = 0; i < v.size(); i++) r += (i ? ", " : "") + show(v[i]); return r + "]"; }
+
+// ---- enumeration of all strings up to length n over an alphabet ------------------------------------------------------------
+static bool sweep(const string& alpha, size_t maxlen, const function<bool(const string&)>& f) {
+  string s;
+  function<bool(size_t)> rec = [&](size_t left) -> bool {
+    if (!f(s)) return false;
+    if (!left) return true;
+    for (char c : alpha) { s.push_back(c); bool ok = rec(left - 1); s.pop_back(); if (!ok) return false; }
+    return true;
+  };
+  return rec(maxlen);
+}
+
+// ---- reference definitions ---------------------------------------------------------------------------------------------------
+static bool is_ws(char c) { return c == ' ' || c == '\t' || c == '\r' || c == '\n'; }
+
+static vector<string> ref_split(const string& s, char d, size_t max_splits) {
+  vector<string> r(1);
+  for (char c : s) {
+    if (c == d && (!max_splits || r.size() <= max_splits)) r.emplace_back(); else r.back().push_back(c);
+  }
+  return r;
+}
+static string ref_join(const vector<string>& v, const string& sep) {
+  string r;
+  for (size_t i = 0; i < v.size(); i++) { if (i) r += sep; r += v[i]; }
+  return r;
+}
+// bracket / quote aware: ( [ { < open a level closed by their partner, ' and " open a quoted level closed by the same unescaped
+// character (backslash escapes the next character inside quotes); brackets are inert inside quotes; a closer that does not
+// match the innermost open level is an ordinary character; delimiters count only at nesting depth 0; open levels at the end
+// of the input are an error.
+struct CtxResult { bool error; vector<string> pieces; };
+static CtxResult ref_split_context(const string& s, char d, size_t max_splits) {
+  CtxResult R{false, vector<string>(1)};
+  string stack; bool esc = false;
+  for (char c : s) {
+    bool split_here = false;
+    if (!esc && !stack.empty() && c == stack.back()) { stack.pop_back(); }
+    else {
+      bool quoted = !stack.empty() && (stack.back() == '\'' || stack.back() == '"');
+      if (esc) esc = false; else if (quoted && c == '\\') esc = true;
+      if (!quoted) {
+        if (c == '(') stack.push_back(')'); else if (c == '[') stack.push_back(']'); else if (c == '{') stack.push_back('}');
+        else if (c == '<') stack.push_back('>'); else if (c == '\'' || c == '"') stack.push_back(c);
+        else if (stack.empty() && c == d && (!max_splits || R.pieces.size() <= max_splits)) split_here = true;
+      }
+    }
+    if (split_here) R.pieces.emplace_back(); else R.pieces.back().push_back(c);
+  }
+  R.error = !stack.empty();
+  return R;
+}
+// shell-style arguments: blanks (space, tab) outside quotes separate arguments; ' and " quote (closed by the same character);
+// backslash takes the next character literally (inside and outside quotes), a trailing backslash and an unterminated quote
+// are errors.  An argument exists once a character has been written to it.
+struct ArgsResult { int error; vector<string> args; };   // error: 0 none, 1 incomplete escape, 2 unterminated quote
+static ArgsResult ref_split_args(const string& s, bool nul_is_char) {
+  ArgsResult R{0, {}};
+  char quote = 0; bool in_arg = false;
+  for (size_t z = 0; z < s.size(); z++) {
+    char c = s[z]; bool literal = false, emit = false;
+    if (quote) { if (c == quote) quote = 0; else if (c == '\\') { if (++z >= s.size()) { R.error = 1; return R; } c = s[z]; literal = emit = true; } else literal = emit = true; }
+    else if (c == '"' || c == '\'') quote = c;
+    else if (c == '\\') { if (++z >= s.size()) { R.error = 1; return R; } c = s[z]; literal = emit = true; }
+    else emit = true;
+    if (!emit) continue;
+    if (c == 0 && !nul_is_char) continue;
+    if (!literal && (c == ' ' || c == '\t')) { in_arg = false; continue; }
+    if (!in_arg) { R.args.emplace_back(); in_arg = true; }
+    R.args.back().push_back(c);
+  }
+  if (quote) R.error = 2;
+  return R;
+}
+static string ref_replace_all(const string& s, const string& t, const string& r) {
+  string out; size_t p = 0;
+  while (p < s.size()) {
+    if (p + t.size() <= s.size() && s.compare(p, t.size(), t) == 0) { out += r; p += t.size(); } else out.push_back(s[p++]);
+  }
+  return out;
+}
+struct CmtResult { bool unterminated; string text; };
+static CmtResult ref_strip_comments(const string& s) {
+  CmtResult R{false, ""}; bool in = false;
+  for (size_t z = 0; z < s.size();) {
+    if (!in && s[z] == '/' && z + 1 < s.size() && s[z + 1] == '*') { in = true; z += 2; }
+    else if (in && s[z] == '*' && z + 1 < s.size() && s[z + 1] == '/') { in = false; z += 2; }
+    else { if (!in || s[z] == '\n') R.text.push_back(s[z]); z++; }
+  }
+  R.unterminated = in;
+  return R;
+}
+
+#define DIFF(...) do { printf("POSTCONDITION VIOLATED on the real code: "); printf(__VA_ARGS__); printf("\n"); return false; } while (0)
+
+int main(int argc, char** argv) {
+  Args A(argc, argv);
+  const string& m = A.mode;
+  char delim = A.has("in_delim") ? (char)A.u("in_delim") : ',';
+  if (delim == 'a') delim = ',';
+  size_t L = A.u("sweep_len", 6);
+  bool ok = true;
+  string alpha = string("a") + delim + " " + string(1, '\0');
+  vector<size_t> maxes = {0, 1, 2, 3};
+  if (A.has("in_max_splits") && A.u("in_max_splits") > 3) maxes.push_back(A.u("in_max_splits"));
+  printf("%s: sweep over all strings up to length %zu\n", m.c_str(), L);
+
+  if (m == "split" || m == "lemma_join_split") {
+    ok = sweep(alpha + "b", L, [&](const string& s) {
+      for (size_t mx : maxes) {
+        vector<string> got = split(s, delim, mx), want = ref_split(s, delim, mx);
+        if (m == "split" && got != want) DIFF("split(%s, '%c', %zu) = %s, reference %s", show(s).c_str(), delim, mx, show(got).c_str(), show(want).c_str());
+        if (m != "split") { string j = join(got, delim); if (j != s) DIFF("join(split(%s, '%c', %zu), '%c') = %s", show(s).c_str(), delim, mx, delim, show(j).c_str()); }
+      }
+      return true; });
+  } else if (m == "join_delim" || m == "join_plain") {
+    // all vectors of up to 3 strings, each up to length 2 over {a, delim}
+    vector<string> pool; sweep(string("a") + delim, 2, [&](const string& s) { pool.push_back(s); return true; });
+    vector<string> v;
+    function<bool(size_t)> rec = [&](size_t left) -> bool {
+      string got = m == "join_delim" ? join(v, delim) : join(v), want = ref_join(v, m == "join_delim" ? string(1, delim) : string());
+      if (got != want) DIFF("join(%s%s) = %s, reference %s", show(v).c_str(), m == "join_delim" ? (string(", '") + delim + "'").c_str() : "", show(got).c_str(), show(want).c_str());
+      if (!left) return true;
+      for (auto& p : pool) { v.push_back(p); bool o = rec(left - 1); v.pop_back(); if (!o) return false; }
+      return true; };
+    ok = rec(3);
+  } else if (m == "split_context" || m == "lemma_join_split_context") {
+    ok = sweep(string("a") + delim + "()\"\\" + "[", L, [&](const string& s) {
+      for (size_t mx : maxes) {
+        CtxResult want = ref_split_context(s, delim, mx); vector<string> got; bool threw = false, other = false;
+        try { got = split_context(s, delim, mx); } catch (const runtime_error&) { threw = true; } catch (...) { other = true; }
+        if (m == "split_context") {
+          if (other || threw != want.error) DIFF("split_context(%s, '%c', %zu) %s, reference %s", show(s).c_str(), delim, mx, threw ? "threw runtime_error" : other ? "threw another exception" : "returned", want.error ? "rejects (unbalanced)" : "accepts");
+          if (!threw && got != want.pieces) DIFF("split_context(%s, '%c', %zu) = %s, reference %s", show(s).c_str(), delim, mx, show(got).c_str(), show(want.pieces).c_str());
+        } else if (!threw && !other) { string j = join(got, delim); if (j != s) DIFF("join(split_context(%s, '%c', %zu), '%c') = %s", show(s).c_str(), delim, mx, delim, show(j).c_str()); }
+      }
+      return true; });
+  } else if (m == "split_args") {
+    bool nul_is_char = A.u("nul_is_char", 1) != 0;
+    ok = sweep(string("a \"'\\\t") + string(1, '\0'), L, [&](const string& s) {
+      ArgsResult want = ref_split_args(s, nul_is_char); vector<string> got; int err = 0; string what;
+      try { got = split_args(s); } catch (const runtime_error& e) { what = e.what(); err = what == "incomplete escape sequence" ? 1 : what == "unterminated quoted string" ? 2 : 3; } catch (...) { err = 3; }
+      if (err != want.error) DIFF("split_args(%s): error class %d (%s), reference %d", show(s).c_str(), err, what.c_str(), want.error);
+      if (!err && got != want.args) DIFF("split_args(%s) = %s, reference %s", show(s).c_str(), show(got).c_str(), show(want.args).c_str());
+      return true; });
+  } else if (m == "strip_trailing_zeroes" || m == "strip_trailing_whitespace" || m == "strip_leading_whitespace" || m == "strip_whitespace") {
+    ok = sweep(string("a \n\t") + string(1, '\0') + "\r", L, [&](const string& s) {
+      string got = s, want = s;
+      if (m == "strip_trailing_zeroes") { strip_trailing_zeroes(got); while (!want.empty() && want.back() == 0) want.pop_back(); }
+      else {
+        if (m != "strip_leading_whitespace") while (!want.empty() && is_ws(want.back())) want.pop_back();
+        if (m != "strip_trailing_whitespace") { size_t i = 0; while (i < want.size() && is_ws(want[i])) i++; want = want.substr(i); }
+        if (m == "strip_trailing_whitespace") strip_trailing_whitespace(got); else if (m == "strip_leading_whitespace") strip_leading_whitespace(got); else strip_whitespace(got);
+      }
+      if (got != want) DIFF("%s(%s) = %s, reference %s", m.c_str(), show(s).c_str(), show(got).c_str(), show(want).c_str());
+      return true; });
+  } else if (m == "strip_multiline_comments") {
+    ok = sweep(string("a/*\n") + string(1, '\0'), L + 1, [&](const string& s) {
+      for (int allow = 0; allow < 2; allow++) {
+        CmtResult want = ref_strip_comments(s); string got = s; bool threw = false;
+        try { strip_multiline_comments(got, allow != 0); } catch (const runtime_error&) { threw = true; }
+        if (threw != (want.unterminated && !allow)) DIFF("strip_multiline_comments(%s, %d) %s", show(s).c_str(), allow, threw ? "threw" : "did not throw");
+        if (!threw && got != want.text) DIFF("strip_multiline_comments(%s, %d) = %s, reference %s", show(s).c_str(), allow, show(got).c_str(), show(want.text).c_str());
+      }
+      return true; });
+  } else if (m == "starts_with" || m == "ends_with") {
+    ok = sweep(string("ab") + string(1, '\0'), 5, [&](const string& s) {
+      return sweep(string("ab") + string(1, '\0'), 3, [&](const string& t) {
+        bool want = s.size() >= t.size() && (m == "starts_with" ? equal(t.begin(), t.end(), s.begin()) : equal(t.begin(), t.end(), s.end() - t.size()));
+        bool got = m == "starts_with" ? starts_with(s, t) : ends_with(s, t);
+        if (got != want) DIFF("%s(%s, %s) = %d, reference %d", m.c_str(), show(s).c_str(), show(t).c_str(), got, want);
+        return true; }); });
+  } else if (m == "toupper" || m == "tolower") {
+    // every byte value at every position of a short string ("C" locale)
+    for (int c = 0; c < 256 && ok; c++) for (size_t pos = 0; pos < 3 && ok; pos++) {
+      string s = "xYz"; s[pos] = (char)c; string want = s;
+      for (char& ch : want) { if (m == "toupper" && ch >= 'a' && ch <= 'z') ch -= 32; if (m == "tolower" && ch >= 'A' && ch <= 'Z') ch += 32; }
+      string got = m == "toupper" ? phosg::toupper(s) : phosg::tolower(s);
+      if (got != want) { printf("POSTCONDITION VIOLATED on the real code: %s(%s) = %s, reference %s\n", m.c_str(), show(s).c_str(), show(got).c_str(), show(want).c_str()); ok = false; }
+    }
+    if (ok) { string e; if (!phosg::toupper(e).empty() || !phosg::tolower(e).empty()) ok = false; }
+  } else if (m == "str_replace_all") {
+    const char* targets[] = {"a", "ab", "aa", "aba"}; const char* repls[] = {"", "a", "ab", "xyz"};
+    ok = sweep("abx", L + 1, [&](const string& s) {
+      for (auto t : targets) for (auto r : repls) {
+        string got = str_replace_all(s, t, r), want = ref_replace_all(s, t, r);
+        if (got != want) DIFF("str_replace_all(%s, \"%s\", \"%s\") = %s, reference %s", show(s).c_str(), t, r, show(got).c_str(), show(want).c_str());
+      }
+      return true; });
+  } else if (m == "skip_whitespace" || m == "skip_non_whitespace" || m == "skip_word" || m == "skip_whitespace_c" || m == "skip_non_whitespace_c" || m == "skip_word_c") {
+    bool cform = m.size() > 2 && m.substr(m.size() - 2) == "_c";
+    string base = cform ? m.substr(0, m.size() - 2) : m;
+    ok = sweep(cform ? string("a \n\t") : string("a \n\t\r") + string(1, '\0'), L, [&](const string& s) {
+      for (size_t off = 0; off <= s.size(); off++) {
+        size_t want = off;
+        if (base != "skip_whitespace") while (want < s.size() && !is_ws(s[want])) want++;
+        if (base != "skip_non_whitespace") while (want < s.size() && is_ws(s[want])) want++;
+        size_t got = base == "skip_whitespace" ? (cform ? skip_whitespace(s.c_str(), off) : skip_whitespace(s, off))
+                   : base == "skip_non_whitespace" ? (cform ? skip_non_whitespace(s.c_str(), off) : skip_non_whitespace(s, off))
+                   : (cform ? skip_word(s.c_str(), off) : skip_word(s, off));
+        if (got != want) DIFF("%s(%s, %zu) = %zu, reference %zu", m.c_str(), show(s).c_str(), off, got, want);
+      }
+      return true; });
+  } else {
+    fprintf(stderr, "unknown mode %s\n", m.c_str());
+    return 2;
+  }
+  if (ok) printf("no difference found\n");
+  return ok ? 0 : 1;
+}
